@@ -32,6 +32,7 @@ ASSUMPTIONS = [
     "streamer semantics: machines/stream.py (temporal index 0 fastest, one 8-byte word per spatial port at base + sum t*ts + sum s*ss)",
     "schedule semantics: outer (temporal) dims iterate lexicographically with the last one fastest; the innermost template dims are spatial",
     "layout semantics: machines/layout.py; element byte k of element e lives at addr(e)*elsize + k",
+    "snax_xdma: reader and writer move 64 bytes per step whatever the element width, so for the narrower operand consecutive schedule steps are merged (order kept) before comparing",
 ]
 BOUNDS = {"quick": dict(sizes=[8, 16, 24]), "thorough": dict(sizes=[8, 16, 24, 32])}
 CASE_TIMEOUT = 120
@@ -120,6 +121,46 @@ def alu_text(shape, layouts=None, same=False):
     return text
 
 
+def xdma_text(n, kern):
+    """snax_xdma (registered with its default streamer configuration): element-wise kernels handled by a DMA extension"""
+    if kern == "add":
+        tys, els = [f'memref<{n}xi32, "L1">'] * 3, ["i32", "i32", "i32"]
+        k = "%k = kernel.add %e0, %e1 : i32, i32 -> i32"
+    else:
+        a, b = ("i32", "i8") if kern == "rdown" else ("i8", "i32")
+        tys, els = [f'memref<{n}x{a}, "L1">', f'memref<{n}x{b}, "L1">'], [a, b]
+        k = f"%k = kernel.rescale %e0 {{input_zp = 3 : i32, output_zp = 5 : i32, multiplier = array<i32: 7>, shift = array<i32: 9>, max_int = 127 : i32, min_int = -128 : i32, double_round = false}} : ({a}) -> {b}"
+    nin = len(tys) - 1
+    m = "affine_map<(d0) -> (d0)>"
+    args = ", ".join(f"%m{i} : {t}" for i, t in enumerate(tys))
+    streams = ", ".join(f"%s{i} : !dart.stream<{e}>" for i, e in enumerate(els))
+    bargs = ", ".join(f"%e{i} : {e}" for i, e in enumerate(els))
+    gin = ", ".join(f"%s{i}" for i in range(nin))
+    gint = ", ".join(f"!dart.stream<{e}>" for e in els[:nin])
+    return (
+        "builtin.module {\nfunc.func @f(" + args + ") {\n"
+        f'  "dart.operation"({", ".join(f"%m{i}" for i in range(len(tys)))}) <{{patterns = [{", ".join([m] * len(tys))}], accelerator = "snax_xdma", operandSegmentSizes = array<i32: {nin}, 1>}}> ({{\n'
+        f"  ^bb0({streams}):\n"
+        f'    %g = "dart.generic"({gin}) <{{library_call = "snax_xdma"}}> ({{\n    ^bb1({bargs}):\n      {k}\n      dart.yield %k : {els[-1]}\n'
+        f"    }}) : ({gint}) -> !dart.stream<{els[-1]}>\n    dart.yield %g : !dart.stream<{els[-1]}>\n"
+        "  }) : (" + ", ".join(tys) + ") -> ()\n  func.return\n}\n}\n"
+    )
+
+
+_XDMA = []
+
+
+def ensure_xdma():
+    if not _XDMA:
+        from snaxc.accelerators.snax_xdma import SNAXXDMAAccelerator
+
+        try:
+            common.ctx().register_accelerator("snax_xdma", lambda: SNAXXDMAAccelerator())
+        except Exception:
+            pass
+        _XDMA.append(1)
+
+
 def tsl(dims, offset=0):
     t = ", ".join("[" + ", ".join(str(b) for b, _ in d) + "] -> (" + ", ".join(str(s) for _, s in d) + ")" for d in dims)
     return "#tsl.tsl<" + t + (f", offset: {offset}" if offset else "") + ">"
@@ -189,6 +230,12 @@ def space(tier):
     for n in (8, 16, 40):
         for lay in ("tiled", "untiled", "none"):
             cases.append(("alu2", (n,), lay))
+    # snax_xdma: kernels handled by a DMA extension
+    for kern in ("rdown", "rup", "add"):
+        sizes = (16, 32, 48, 64, 80, 128, 256) if tier == "quick" else (16, 32, 48, 64, 128, 192, 256, 512, 1024)
+        for n in sizes if kern != "add" else (16, 128):
+            for lay in ("tiled", "untiled"):
+                cases.append(("xdma", kern, n, lay))
     for n in range(4, 68, 4):
         for lay in ("tiled", "untiled"):
             cases.append(("alu", (n,), lay))
@@ -234,6 +281,11 @@ def evaluate(case) -> CaseResult:
             layouts[which] = tsl(hand_layouts(*shapes[which], pitchpad=8 if lay == "hand2" else 0)[i])
         text = mm_text(M, N, K, kern, layouts)
         acc = "snax_gemmx"
+    elif kind == "xdma":
+        _, kern, n, lay = case
+        ensure_xdma()
+        text = xdma_text(n, kern)
+        acc = "snax_xdma"
     elif kind == "gram":
         _, M, K, kern, lay = case
         text = mm_text(M, M, K, kern, gram=True)
@@ -344,6 +396,11 @@ def evaluate(case) -> CaseResult:
             continue
         si, got = impl[o][0]
         r.transitions += len(got)
+        if acc == "snax_xdma" and got and len(seq) > len(got) and len(seq) % len(got) == 0:
+            # the DMA moves 64 bytes per step on both sides whatever the element width: a narrow operand advances several schedule steps per
+            # streamer step. Compare at the streamer's granularity (consecutive schedule steps merged, order kept)
+            g = len(seq) // len(got)
+            seq = [frozenset().union(*seq[k * g : (k + 1) * g]) for k in range(len(got))]
         if got != seq:
             i = next((k for k, (x, y) in enumerate(zip(got, seq)) if x != y), min(len(got), len(seq)))
             gx = sorted(got[i])[:6] if i < len(got) else None
